@@ -21,6 +21,7 @@ type CEnv struct {
 	depth int
 	nq    *int
 	lookup func(string) (Term, bool)
+	globalOf func(*types.Var) (Term, bool)
 	pre    *CEnv
 }
 
@@ -30,7 +31,7 @@ func (w *World) newEnv(pkg *packages.Package) *CEnv {
 }
 
 func (e *CEnv) child() *CEnv {
-	c := &CEnv{w: e.w, pkg: e.pkg, vars: map[string]Term{}, old: e.old, depth: e.depth, nq: e.nq, lookup: e.lookup, pre: e.pre}
+	c := &CEnv{w: e.w, pkg: e.pkg, vars: map[string]Term{}, old: e.old, depth: e.depth, nq: e.nq, lookup: e.lookup, pre: e.pre, globalOf: e.globalOf}
 	for k, v := range e.vars {
 		c.vars[k] = v
 	}
@@ -149,6 +150,11 @@ func (e *CEnv) eval(x CExpr) Term {
 				if tp := e.w.findPkgByName(id.Name, e.pkg); tp != nil {
 					if c, ok := tp.Scope().Lookup(n.Sel).(*types.Const); ok {
 						return e.w.constTerm(c.Val(), c.Type())
+					}
+					if gv, ok := tp.Scope().Lookup(n.Sel).(*types.Var); ok && e.globalOf != nil {
+						if t, ok := e.globalOf(gv); ok {
+							return t
+						}
 					}
 					cfail("unknown %s.%s", id.Name, n.Sel)
 				}
@@ -460,7 +466,7 @@ plain:
 		if e.depth > 40 {
 			cfail("macro recursion in %s", name)
 		}
-		c := &CEnv{w: e.w, pkg: m.Pkg, vars: map[string]Term{}, old: nil, depth: e.depth + 1, nq: e.nq}
+		c := &CEnv{w: e.w, pkg: m.Pkg, vars: map[string]Term{}, old: nil, depth: e.depth + 1, nq: e.nq, globalOf: e.globalOf, lookup: e.globalsOnly()}
 		if c.pkg == nil {
 			c.pkg = e.pkg
 		}
@@ -550,4 +556,22 @@ func (w *World) axiomTexts() []string {
 		}()
 	}
 	return axiomCache
+}
+
+// globalsOnly restricts name lookup inside macro bodies to package-level variables.
+func (e *CEnv) globalsOnly() func(string) (Term, bool) {
+	if e.globalOf == nil {
+		return nil
+	}
+	return func(name string) (Term, bool) {
+		for _, p := range e.w.Pkgs {
+			_ = p
+		}
+		if e.pkg != nil {
+			if gv, ok := e.pkg.Types.Scope().Lookup(name).(*types.Var); ok {
+				return e.globalOf(gv)
+			}
+		}
+		return Term{}, false
+	}
 }
